@@ -519,20 +519,23 @@ LEGACY_WHAT = ('waiter leaves a generator-based coroutine (types.coroutine) un-a
                '(inspect.isawaitable) but not an instance of collections.abc.Awaitable (_waiter.py leaf test)')
 
 
-def legacy_family(ctx):
-    """The legacy kind of awaitable (generator-based coroutines) is enumerated and replayed like every other kind, but
-    it enters the verdict only through a known finding whose `where` names family = 'gencoro' (known_findings.json is
-    not this property's to edit); without one, what the replay finds is shown and listed among the assumptions."""
+def s2c_waiter_all(ctx, behaviours):
+    """The schedules of structures holding the legacy kind of awaitable (generator-based coroutines) are enumerated and
+    replayed like all others, but enter the verdict only through a known finding whose `where` names family = 'gencoro'
+    (known_findings.json is not this property's to edit); without one, what the replay finds is shown and listed among
+    the assumptions."""
+    legacy = [b for b in behaviours if 'gencoro' in aw_kinds(b['tree'], {}).values()]
+    s2c_waiter(ctx, [b for b in behaviours if 'gencoro' not in aw_kinds(b['tree'], {}).values()])
     listed = any((k.get('where') or {}).get('family') == 'gencoro' for k in ctx.known)
     found = []
-    s2c_waiter(ctx, ctx.generate('MC_LiftWaiter', 'MC_LiftWaiter_gen_legacy.cfg'),
-               report=None if listed else (lambda clause, case, detail=None: found.append((clause, case, detail))))
+    s2c_waiter(ctx, legacy, report=None if listed else (lambda clause, case, detail=None: found.append((clause, case, detail))))
     if found:
-        print('NOT-IN-VERDICT property=C19 family=gencoro %d schedules, e.g. clause=%s tree=%r observed=%r : %s' % (
-            len(found), found[0][0], found[0][1]['tree'], (found[0][2] or {}).get('observed'), LEGACY_WHAT))
-        ctx.assumptions.append('kept out of the verdict (no known finding lists it): %s - %d of the replayed legacy schedules' % (LEGACY_WHAT, len(found)))
+        print('NOT-IN-VERDICT property=C19 family=gencoro %d of %d schedules, e.g. clause=%s tree=%r observed=%r : %s' % (
+            len(found), len(legacy), found[0][0], found[0][1]['tree'], (found[0][2] or {}).get('observed'), LEGACY_WHAT))
+        ctx.assumptions.append('kept out of the verdict (no known finding lists it): %s - %d of the %d replayed legacy schedules'
+                               % (LEGACY_WHAT, len(found), len(legacy)))
     elif not listed:
-        ctx.assumptions.append('generator-based coroutines (types.coroutine) replayed as a separate family: all explained')
+        ctx.assumptions.append('generator-based coroutines (types.coroutine) replayed as a separate family (%d schedules): all explained' % len(legacy))
 
 
 # ---- C2S: random, larger and stranger inputs, judged by Trace_Lift ---------------------------
@@ -799,8 +802,7 @@ def run(ctx):
     ctx.mc('MC_LiftWaiter', 'MC_LiftWaiter_quick.cfg' if q else 'MC_LiftWaiter_thorough.cfg')
     # a waiter that awaits one awaitable after the other never returns on inter-dependent coroutines (on the model)
     ctx.mc('MC_LiftWaiter', 'MC_LiftWaiter_sequential.cfg', must_fail='Termination', coverage=False)
-    s2c_waiter(ctx, ctx.generate('MC_LiftWaiter', 'MC_LiftWaiter_gen_quick.cfg' if q else 'MC_LiftWaiter_gen_thorough.cfg'))
-    legacy_family(ctx)
+    s2c_waiter_all(ctx, ctx.generate('MC_LiftWaiter', 'MC_LiftWaiter_gen_quick.cfg' if q else 'MC_LiftWaiter_gen_thorough.cfg'))
     # C2S (the as_list/as_tuple observations of the S2C inputs are judged here too: idempotence)
     if q:
         c2s(ctx, 1500, 1500, 800, 300, 600, extra_obs=norm)
